@@ -335,7 +335,13 @@ def c02(tier):
 c04 = simple("C04", [("MC_Curve.tla", "MC_Curve_insert_TIER.cfg")],
              thorough_extra=[("MC_Curve.tla", "MC_Curve_insert2_thorough.cfg")])
 c05 = simple("C05", [("MC_Curve.tla", "MC_Curve_remove_TIER.cfg")])
-c06 = simple("C06", [("MC_Curve.tla", "MC_Curve_elevate_TIER.cfg"), ("MC_Curve.tla", "MC_Curve_decrease_TIER.cfg")])
+def c06(tier):
+    ev = Evidence("C06", tier, core.seed())
+    rep = Reporter("C06", ev)
+    model_replay("C06", tier, ev, rep, "MC_Curve.tla", f"MC_Curve_elevate_{tier}.cfg")
+    model_replay("C06", tier, ev, rep, "MC_Curve.tla", f"MC_Curve_decrease_{tier}.cfg")
+    driver_big("C06", tier, ev, rep, "elevate", 11 if tier == "quick" else 200)
+    return finish(ev, rep)
 c07 = simple("C07", [("MC_Curve.tla", "MC_Curve_split_TIER.cfg"), ("MC_Curve.tla", "MC_Curve_join_TIER.cfg")])
 def c08(tier):
     ev = Evidence("C08", tier, core.seed())
